@@ -114,6 +114,7 @@ func ruleChainRefAbsolute(c *Ctx) {
 			return true
 		})
 		good, targetOK := false, false
+		var loopSwitch *ast.CallExpr
 		if se, ok := unparen(rcall.Fun).(*ast.SelectorExpr); ok {
 			if lid, ok := unparen(se.X).(*ast.Ident); ok && c.objOf(lid) != c.recvObj(fd) {
 				lv := c.objOf(lid)
@@ -136,6 +137,7 @@ func ruleChainRefAbsolute(c *Ctx) {
 					sig := g.Type().(*types.Signature)
 					if sig.Recv() != nil && sig.Results().Len() == 1 && isNamed(derefType(sig.Results().At(0).Type()), c.Types, fam.loader.Obj().Name()) {
 						good = true
+						loopSwitch = sw
 						for _, a := range sw.Args {
 							if isNamed(derefType(c.typeOf(a)), c.Types, "Ref") && c.isNormalisedRef(fd, a, nil, 0) {
 								targetOK = true
@@ -151,6 +153,22 @@ func ruleChainRefAbsolute(c *Ctx) {
 		if good {
 			c.ob(rule, fn+":resolver-switch-target", rcall.Pos(), targetOK,
 				"the resolver for the next hop is chosen from the holder's own $ref, which the resolution has just overwritten with the NEXT reference of the chain, instead of the normalised reference of the hop that was followed")
+		}
+		if good && targetOK && loopSwitch != nil {
+			baseOK, why := c.switchBaseOK(fd, loopSwitch)
+			c.ob(rule, fn+":resolver-switch-base", loopSwitch.Pos(), baseOK, why)
+			// the switch is made from the loader of the hop being left (the loop-carried one), not from the receiver:
+			// the receiver answers "same document" with itself, which is the loader of the FIRST hop
+			fromCurrent := false
+			if sse, ok := unparen(loopSwitch.Fun).(*ast.SelectorExpr); ok {
+				if rse, ok := unparen(rcall.Fun).(*ast.SelectorExpr); ok {
+					a, aok := unparen(sse.X).(*ast.Ident)
+					b, bok := unparen(rse.X).(*ast.Ident)
+					fromCurrent = aok && bok && c.objOf(a) == c.objOf(b)
+				}
+			}
+			c.ob(rule, fn+":resolver-switch-from", loopSwitch.Pos(), fromCurrent,
+				"the loader for the next hop is derived from the receiver instead of the loader of the hop being left: when the next hop stays in the document just reached, the switch hands back the receiver, i.e. the loader of the first hop, and a fragment-only $ref is looked up in the caller's root")
 		}
 	}
 	if !moves {
@@ -198,6 +216,10 @@ func ruleChainRefAbsolute(c *Ctx) {
 			}
 			c.ob(rule, fn+":resolver-switch-target", call.Pos(), targetOK,
 				"the resolver for the next hop is chosen from the holder's own $ref, which the resolution has just overwritten with the NEXT reference of the chain, instead of the normalised reference of the hop that was followed: a fragment-only alias inside an imported document is looked up in the wrong document")
+			if targetOK && sw != nil {
+				baseOK, why := c.switchBaseOK(fd, sw)
+				c.ob(rule, fn+":resolver-switch-base", sw.Pos(), baseOK, why)
+			}
 		}
 		return true
 	})
@@ -646,6 +668,79 @@ func ruleDenormFinal(c *Ctx) {
 			return true
 		})
 	}
+}
+
+// switchBaseOK: the loader switch decides "same document or another one" by comparing the reference with a base:
+// that base must be the very one the reference was normalised against, still unchanged when the switch is made
+// (once the base variable has moved to the document of the reference, the comparison always says "same document"
+// and the loader never changes along the chain).
+func (c *Ctx) switchBaseOK(fd *ast.FuncDecl, sw *ast.CallExpr) (bool, string) {
+	var baseArg *ast.Ident
+	var refArg ast.Expr
+	for _, a := range sw.Args {
+		t := c.typeOf(a)
+		if t == nil {
+			continue
+		}
+		if isStringType(t) {
+			baseArg, _ = unparen(a).(*ast.Ident)
+			if baseArg == nil {
+				return true, "" // not a plain variable: nothing to compare
+			}
+		} else if isNamed(derefType(t), c.Types, "Ref") {
+			refArg = a
+		}
+	}
+	if baseArg == nil || refArg == nil {
+		return true, ""
+	}
+	bo := c.objOf(baseArg)
+	// the normalising call that defines the reference handed to the switch
+	e := unparen(refArg)
+	if st, ok := e.(*ast.StarExpr); ok {
+		e = unparen(st.X)
+	}
+	id, ok := e.(*ast.Ident)
+	if !ok {
+		return true, ""
+	}
+	var norm *ast.CallExpr
+	for _, d := range c.localDefs(fd)[c.objOf(id)] {
+		if dc, ok := unparen(d).(*ast.CallExpr); ok && dc.Pos() < sw.Pos() {
+			if norm == nil || dc.Pos() > norm.Pos() {
+				norm = dc
+			}
+		}
+	}
+	if norm == nil {
+		return true, ""
+	}
+	against := false
+	for _, a := range norm.Args {
+		if aid, ok := unparen(a).(*ast.Ident); ok && c.objOf(aid) == bo {
+			against = true
+		}
+	}
+	if !against {
+		return false, "the loader switch compares the reference with " + baseArg.Name + ", which is not the base the reference was normalised against"
+	}
+	moved := false
+	ast.Inspect(fd.Body, func(n ast.Node) bool {
+		as, ok := n.(*ast.AssignStmt)
+		if !ok || as.Pos() < norm.End() || as.End() > sw.Pos() {
+			return true
+		}
+		for _, l := range as.Lhs {
+			if lid, ok := unparen(l).(*ast.Ident); ok && c.objOf(lid) == bo {
+				moved = true
+			}
+		}
+		return true
+	})
+	if moved {
+		return false, "the base " + baseArg.Name + " is moved to the next document before the loader switch compares the reference with it: the switch then always answers \"same document\" and the loader never changes along the chain, so a fragment-only $ref found in an imported document is looked up in the root"
+	}
+	return true, ""
 }
 
 // isSwitchedLoader: the expression is the result of a loader method that returns a loader (the transitive
